@@ -380,9 +380,9 @@ def run(ctx, oracle_only=False, scale=1):
     # Only "planted occurrence not reported" is attributed to the finding (exactly its tag); anything else that goes
     # wrong in this stream (a group twice, a group that is no occurrence, an exception) stays an untagged failure.
     # The model follows the code's box test literally (it also selects nothing), so these cases go through the tie.
-    n_neg, made = ctx.n(3, 20), 0
+    n_neg, made = ctx.n(8, 48), 0          # every kind (1, 2, 3 negative entries, mixed with off-diagonals) in turn
     while made < n_neg:
-        case = g.negdiag_case(rng, atol=ATOL)
+        case = g.negdiag_case(rng, atol=ATOL, kind=g.NEG_KINDS[made % len(g.NEG_KINDS)])
         if case is None:
             ctx.count("generator:rejected")
             continue
